@@ -48,7 +48,7 @@ for _l in LIGHT_LAYOUTS:
 
 # C19 (transform.rs part): the core templates provide the verifier-side types; only the cli module is verified in this unit
 UNITS['cli'] = dict(fragments=PRE + [os.path.join(VF, 'prelude', 'cli.rs')] + T('lemmas.rs', 'numth.rs', 'transcript.rs', 'pow.rs', 'commitment.rs', 'fri.rs', 'air.rs', 'stark.rs', 'cli.rs'),
-                    features=DEFAULT_FEATURES, threads=8, only_modules=['swiftness_cli::transform'])
+                    features=DEFAULT_FEATURES, threads=8, only_modules=['swiftness_cli::transform', 'swiftness_air::dynamic'])
 
 # property -> units per tier, claim text for the manifest
 PROPS = {
